@@ -30,10 +30,23 @@
                                                  in km or m, mixed radii) leaves every key unchanged;
     * `asis_unit_normal_helper_wrong`            a projection `v − (v·c)c` (unit normals only) misorders the
                                                  witness at radius 2.
+    * `construct_faces_row_local`, `construct_faces_schedule_independent`
+                                                 row j depends only on the j-th kept node; with the write
+                                                 position `keptBefore` (input-only) the per-node iterations
+                                                 give the same table in ANY order (thread-count independence);
+    * `model_row_ccw` (with `key_lt_iff_before`, `keyWith_range`, `key_ne_of_before` in Lemmas/DualCcw)
+                                                 over ℝ, for ANY valence: the ring returned by the repaired
+                                                 algorithm satisfies the specification's own `ccwSorted`
+                                                 (margin 0) under general position only (`GenPos`: every
+                                                 centre in a defined half turn from the first, no two in the
+                                                 same direction); distinct keys and keys in (0, 2π) are
+                                                 CONSEQUENCES, not hypotheses.
   What is NOT proved (tested by the harness, judged by the Lean driver): that the face centres
-  around a node are angularly ordered like the face ring (mesh geometry), IEEE rounding.
+  around a node are angularly ordered like the face ring (mesh geometry: ccw order of the centres =
+  ring of edge-sharing faces), IEEE rounding (the theorem is over exact reals).
 -/
 import UxVerif.Lemmas.Dual
+import UxVerif.Lemmas.DualCcw
 import Mathlib.Tactic.Ring
 import Mathlib.Tactic.FieldSimp
 import Mathlib.Analysis.SpecialFunctions.Trigonometric.Inverse
@@ -70,6 +83,62 @@ theorem dual_face_count (rowOf : Nat → Nat → List Int → List Int) (NF : Ta
 
 example : (constructFaces (fun W _ r => r.take W) [[0, 1, 2], [0, 1, FILL], [3, 4, 5]]).length = 2 := by
   decide
+
+/-! ### row locality and schedule independence (thread-count independence of a parallel loop) -/
+
+/-- **construct_faces_row_local**: row `j` of the dual table depends only on the `j`-th kept node
+    (its index and its own row of `node_face_connectivity`), on nothing computed for other nodes. -/
+theorem construct_faces_row_local (rowOf : Nat → Nat → List Int → List Int) (NF : Table) (j : Nat) :
+    (constructFaces rowOf NF)[j]?
+      = ((keptNodes NF)[j]?).map (fun i => rowOf (NF.headD []).length i (rowAt NF i)) := by
+  rw [construct_eq_kept, List.getElem?_map]
+
+/-- **any schedule gives the same table**: if every node writes its row at `keptBefore NF i` (the
+    number of kept nodes before it — a function of the input, not a loop-carried counter), the
+    iterations may run in ANY order (`order` any permutation of the node numbers) and the result is
+    the table of the sequential loop with its `correction` counter. -/
+theorem construct_faces_schedule_independent (rowOf : Nat → Nat → List Int → List Int) (NF : Table)
+    (order : List Nat) (hperm : order.Perm (List.range NF.length)) :
+    constructFacesSched rowOf NF order = constructFaces rowOf NF := by
+  rw [construct_eq_kept]
+  have hcnt : NF.countP (fun r => decide (2 < valence r)) = (keptNodes NF).length :=
+    countP_eq_keptUpTo NF
+  have hnodup : (keptNodes NF).Nodup := List.Nodup.filter _ List.nodup_range
+  apply List.ext_getElem?
+  intro k
+  unfold constructFacesSched
+  simp only []
+  by_cases hk : k < (keptNodes NF).length
+  · have hi_mem : (keptNodes NF)[k] ∈ keptNodes NF := List.getElem_mem hk
+    obtain ⟨hrange, hkept⟩ := List.mem_filter.mp hi_mem
+    have hkept' : 3 ≤ valence (rowAt NF (keptNodes NF)[k]) := by simpa using hkept
+    have hin : (keptNodes NF)[k] < NF.length := List.mem_range.mp hrange
+    have hget : (keptNodes NF)[keptBefore NF (keptNodes NF)[k]]? = some (keptNodes NF)[k] :=
+      keptUpTo_get NF NF.length _ hin hkept'
+    have hpos : keptBefore NF (keptNodes NF)[k] = k := by
+      have hlt : keptBefore NF (keptNodes NF)[k] < (keptNodes NF).length := by
+        rcases Nat.lt_or_ge (keptBefore NF (keptNodes NF)[k]) (keptNodes NF).length with h | h
+        · exact h
+        · rw [List.getElem?_eq_none h] at hget; cases hget
+      rw [List.getElem?_eq_getElem hlt] at hget
+      injection hget with hget
+      exact (hnodup.getElem_inj_iff).mp hget
+    have hL := sched_fold_get rowOf NF (NF.headD []).length order
+      (List.replicate (NF.countP (fun r => decide (2 < valence r))) (List.replicate (NF.headD []).length FILL))
+      (keptNodes NF)[k] hkept' (hperm.mem_iff.mpr hrange) (by rw [hpos, List.length_replicate, hcnt]; exact hk)
+    rw [hpos] at hL
+    rw [hL, List.getElem?_map, List.getElem?_eq_getElem hk]
+    rfl
+  · rw [List.getElem?_eq_none (by rw [sched_fold_length, List.length_replicate, hcnt]; omega),
+      List.getElem?_eq_none (by rw [List.length_map]; omega)]
+
+/-- non-vacuity: three orders of the four nodes of a table with a skipped node -/
+example :
+    let NF : Table := [[4, 2, 9, FILL], [1, 2, FILL, FILL], [3, 8, 5, 6], [7, 5, 1, FILL]]
+    let rowOf := dualRow (fun a b : Int => decide (a < b)) 0 100 (fun _ _ f => f)
+    constructFacesSched rowOf NF [3, 1, 0, 2] = constructFaces rowOf NF ∧
+    constructFacesSched rowOf NF [2, 3, 1, 0] = constructFaces rowOf NF ∧
+    constructFaces rowOf NF = [[4, 2, 9, FILL], [3, 5, 6, 8], [7, 1, 5, FILL]] := by decide
 
 /-! ### `_order_nodes`: selection by strictly increasing key is sorting -/
 
@@ -406,8 +475,15 @@ end field
   azimuth 126.87° (cos = −3/5, 20.8° away), `s2` at azimuth 143.13° (cos = −4/5, 73.7° away).
   Counter-clockwise order from `n0` is `s1, s2`.  The chord-angle key of the snapshot puts `s2` first. -/
 
-noncomputable def realNum : Num ℝ :=
-  { sqrt := Real.sqrt, acos := Real.arccos, lt := fun a b => decide (a < b), twoPi := 2 * Real.pi }
+theorem realNum_strictOrder : StrictOrder realNum.lt := by
+  refine ⟨?_, ?_, ?_⟩
+  · intro a; simp [realNum]
+  · intro a b c h1 h2
+    simp only [realNum, decide_eq_true_eq] at *
+    exact lt_trans h1 h2
+  · intro a b
+    simp only [realNum, decide_eq_true_eq]
+    exact lt_trichotomy a b
 
 noncomputable def wc : V3 ℝ := ⟨0, 0, 1⟩
 noncomputable def wn0 : V3 ℝ := ⟨720/1681, 0, 1519/1681⟩
@@ -464,15 +540,7 @@ theorem asis_order_wrong_ring :
         [(keyWith realNum false wc wn0 ws1, 1), (keyWith realNum false wc wn0 ws2, 2)] = [0, 2, 1] ∧
     orderNodes realNum.lt 0 realNum.twoPi 3 0
         [(keyWith realNum true wc wn0 ws1, 1), (keyWith realNum true wc wn0 ws2, 2)] = [0, 1, 2] := by
-  have hlt : StrictOrder realNum.lt := by
-    refine ⟨?_, ?_, ?_⟩
-    · intro a; simp [realNum]
-    · intro a b c h1 h2
-      simp only [realNum, decide_eq_true_eq] at *
-      exact lt_trans h1 h2
-    · intro a b
-      simp only [realNum, decide_eq_true_eq]
-      exact lt_trichotomy a b
+  have hlt : StrictOrder realNum.lt := realNum_strictOrder
   obtain ⟨_, _, _, _, _, _, _, h1, h2⟩ := asis_chord_angle_misorders
   have rng : ∀ x : ℝ, x < 1 → realNum.lt 0 (Real.arccos x) = true ∧
       realNum.lt (Real.arccos x) realNum.twoPi = true := by
@@ -505,6 +573,121 @@ theorem asis_order_wrong_ring :
       [(keyWith realNum true wc wn0 ws1, (1 : Int)), (keyWith realNum true wc wn0 ws2, 2)]
       (List.Perm.refl _) (by simp [realNum]; exact h2) hr
     simpa using this
+
+/-! ### counter-clockwise order PROVED for the model (every valence, general position only)
+
+  `GenPos`: seen from the node, every other centre lies in a defined half turn counter-clockwise
+  from the first one (none has a vanishing tangent part or the direction of the first centre), and
+  no two centres lie in the same direction.  Nothing else is assumed: no bound on the valence, no
+  "no three collinear", no distinct-angle or range hypothesis — those FOLLOW (`keyWith_range`,
+  `key_ne_of_before`). -/
+
+def GenPos (c : V3 ℝ) (cents : List (V3 ℝ)) (first : Int) (rest : List Int) : Prop :=
+  (∀ f ∈ rest, halfOf realNum 0 c ((vecAt cents first).sub c) ((vecAt cents f).sub c) ≠ none) ∧
+  (∀ f ∈ rest, ∀ g ∈ rest, f ≠ g →
+    before realNum 0 c ((vecAt cents first).sub c) ((vecAt cents f).sub c) ((vecAt cents g).sub c) ≠ none)
+
+/-- **the ring returned by the repaired `_order_nodes` is counter-clockwise** in the sense of the
+    specification's own predicate `ccwSorted` (margin 0, exact reals), and is a permutation of the
+    node's faces — for ANY number of faces around the node, under general position only. -/
+theorem model_row_ccw (c : V3 ℝ) (cents : List (V3 ℝ)) (first : Int) (rest : List Int) (W : Nat)
+    (hc : dot c c ≠ 0) (hnd : rest.Nodup) (hfirst : first ≠ FILL) (hrest : ∀ f ∈ rest, f ≠ FILL)
+    (hgp : GenPos c cents first rest) :
+    ccwSorted realNum 0 c cents (real (orderNodes realNum.lt 0 realNum.twoPi W first
+        (rest.map (fun f => (keyWith realNum true c (vecAt cents first) (vecAt cents f), f)))))
+      = some true ∧
+    (real (orderNodes realNum.lt 0 realNum.twoPi W first
+        (rest.map (fun f => (keyWith realNum true c (vecAt cents first) (vecAt cents f), f))))).Perm
+      (first :: rest) := by
+  set keyOf : Int → ℝ := fun f => keyWith realNum true c (vecAt cents first) (vecAt cents f) with hkeyOf
+  set items := rest.map (fun f => (keyOf f, f)) with hitems
+  have hk : items.Pairwise (fun a b => a.1 ≠ b.1) := by
+    rw [hitems, List.pairwise_map]
+    refine (List.Pairwise.imp_of_mem ?_ hnd)
+    intro f g hf hg hne
+    exact key_ne_of_before c _ _ _ hc (hgp.2 f hf g hg hne)
+  have hr : ∀ x ∈ items, realNum.lt 0 x.1 = true ∧ realNum.lt x.1 realNum.twoPi = true := by
+    intro x hx
+    obtain ⟨f, hf, rfl⟩ := List.mem_map.mp hx
+    exact keyWith_range c _ _ hc (hgp.1 f hf)
+  obtain ⟨hout, hperm, hsorted⟩ :=
+    order_is_sort realNum_strictOrder 0 realNum.twoPi W first items hk hr
+  have hvals : ((sortByKey realNum.lt items).map (·.2)).Perm rest := by
+    have e : items.map (·.2) = rest := by
+      rw [hitems, List.map_map]; exact List.map_id' rest
+    have := hperm.map (·.2)
+    rw [e] at this; exact this
+  have hbody : ∀ x ∈ first :: (sortByKey realNum.lt items).map (·.2), x ≠ FILL := by
+    intro x hx
+    rcases List.mem_cons.mp hx with rfl | hx
+    · exact hfirst
+    · exact hrest x (hvals.mem_iff.mp hx)
+  obtain ⟨_, hrl⟩ := endPadded_append_fill (first :: (sortByKey realNum.lt items).map (·.2))
+    (W - (items.length + 1)) hbody
+  rw [hout, hrl]
+  refine ⟨?_, List.Perm.cons first hvals⟩
+  -- keys increase strictly along the returned ring
+  have hkeys : ((sortByKey realNum.lt items).map (·.2)).Pairwise (fun f g => keyOf f < keyOf g) := by
+    rw [List.pairwise_map]
+    refine List.Pairwise.imp_of_mem ?_ hsorted
+    intro a b ha hb hab
+    have ha' : a.1 = keyOf a.2 := by
+      obtain ⟨f, _, rfl⟩ := List.mem_map.mp (hperm.mem_iff.mp ha); rfl
+    have hb' : b.1 = keyOf b.2 := by
+      obtain ⟨f, _, rfl⟩ := List.mem_map.mp (hperm.mem_iff.mp hb); rfl
+    rw [← ha', ← hb']
+    simpa [realNum] using hab
+  have hndv : ((sortByKey realNum.lt items).map (·.2)).Nodup := hvals.nodup_iff.mpr hnd
+  apply ccwSorted_of
+  · intro f hf
+    exact hgp.1 f (hvals.mem_iff.mp hf)
+  · intro p hp
+    obtain ⟨h1, h2⟩ := mem_zip_tail _ p hp
+    have hlt := pairwise_zip_tail _ hkeys p hp
+    have hne : p.1 ≠ p.2 := by
+      intro he
+      rw [he] at hlt
+      exact lt_irrefl _ hlt
+    have hdec := hgp.2 p.1 (hvals.mem_iff.mp h1) p.2 (hvals.mem_iff.mp h2) hne
+    exact (key_lt_iff_before c _ _ _ hc hdec).mp hlt
+
+/-- non-vacuity of `GenPos` / `model_row_ccw`: the exact witness centres, given in the wrong order -/
+theorem genPos_witness : GenPos wc [wn0, ws1, ws2] 0 [2, 1] := by
+  have v0 : vecAt [wn0, ws1, ws2] 0 = wn0 := rfl
+  have v1 : vecAt [wn0, ws1, ws2] 1 = ws1 := rfl
+  have v2 : vecAt [wn0, ws1, ws2] 2 = ws2 := rfl
+  have t1 : tri wc (wn0.sub wc) (ws1.sub wc) = 414720 / 2825761 := by
+    simp only [tri, dot, cross, V3.sub, wc, wn0, ws1]; norm_num
+  have t2 : tri wc (wn0.sub wc) (ws2.sub wc) = 10368 / 42025 := by
+    simp only [tri, dot, cross, V3.sub, wc, wn0, ws2]; norm_num
+  have t12 : 0 < tri wc (ws1.sub wc) (ws2.sub wc) := by
+    simp only [tri, dot, cross, V3.sub, wc, ws1, ws2]; norm_num
+  have t21 : tri wc (ws2.sub wc) (ws1.sub wc) < 0 := by
+    simp only [tri, dot, cross, V3.sub, wc, ws1, ws2]; norm_num
+  have h1 : halfR (tri wc (wn0.sub wc) (ws1.sub wc)) (tdot wc (wn0.sub wc) (ws1.sub wc)) = some 0 := by
+    rw [t1]; simp [halfR]
+  have h2 : halfR (tri wc (wn0.sub wc) (ws2.sub wc)) (tdot wc (wn0.sub wc) (ws2.sub wc)) = some 0 := by
+    rw [t2]; simp [halfR]
+  constructor
+  · intro f hf
+    simp only [List.mem_cons, List.not_mem_nil, or_false] at hf
+    rcases hf with rfl | rfl
+    · rw [v0, v2, halfOf_eq_halfR, h2]; simp
+    · rw [v0, v1, halfOf_eq_halfR, h1]; simp
+  · intro f hf g hg hne
+    simp only [List.mem_cons, List.not_mem_nil, or_false] at hf hg
+    rcases hf with rfl | rfl <;> rcases hg with rfl | rfl
+    · exact absurd rfl hne
+    · rw [v0, v1, v2, before_eq_beforeR]; unfold beforeR; rw [h2, h1]; simp [t21, not_lt.mpr t21.le]
+    · rw [v0, v1, v2, before_eq_beforeR]; unfold beforeR; rw [h1, h2]; simp [t12]
+    · exact absurd rfl hne
+
+example : ccwSorted realNum 0 wc [wn0, ws1, ws2] (real (orderNodes realNum.lt 0 realNum.twoPi 4 0
+    ([2, 1].map (fun f => (keyWith realNum true wc (vecAt [wn0, ws1, ws2] 0) (vecAt [wn0, ws1, ws2] f), f)))))
+    = some true :=
+  (model_row_ccw wc [wn0, ws1, ws2] 0 [2, 1] 4 (by simp only [dot, wc]; norm_num) (by decide) (by decide)
+    (by decide) genPos_witness).1
+
 
 /-! ### radius invariance of the ordering (grids carry Cartesian coordinates on spheres of any radius)
 
